@@ -60,6 +60,12 @@ def gen_pair(rng):
     A = mutate(rng, E)
     if rng.random() < 0.1 and A:
         A = A + ['']
+    if rng.random() < 0.06:
+        # several empty lines at the end, on one side or on both
+        k = rng.choice([2, 3])
+        A = A + [''] * k
+        if rng.random() < 0.6:
+            E = E + [''] * rng.choice([k, k, k - 1])
     return A, E
 
 
@@ -134,8 +140,16 @@ def impl_check_strings(fc, A, E, o, apath=None, create_temporaries=False):
               preprocess=PREPROCESS[o.get('preprocess')],
               max_permutation_cases=o['max_permutation_cases'])
     try:
-        r = fc.check_strings(list(A), list(E), actual_path=apath,
+        # the caller's own list objects, checked twice: the second verdict is about the same texts
+        A_in, E_in = list(A), list(E)
+        r = fc.check_strings(A_in, E_in, actual_path=apath,
                              create_temporaries=create_temporaries, **kw)
+        if not create_temporaries:
+            r2 = fc.check_strings(A_in, E_in, actual_path=apath, create_temporaries=False, **kw)
+            if (r.failures == 0) != (r2.failures == 0):
+                return dict(verdict='unstable (%s, then %s for the same list objects)'
+                            % ('pass' if r.failures == 0 else 'fail', 'pass' if r2.failures == 0 else 'fail'),
+                            recon=None, msgs=None)
     except RecursionError:
         return dict(verdict='diverge', recon=None, msgs=None)
     except Exception as e:       # noqa: a comparison has to give a verdict
